@@ -83,14 +83,21 @@ def concretise(job, unit, res, workdir, log):
             combos = combos[:64]
         stubs = ''
         stub_fns = []
+        real_fns = []
         for cn, inf in lw.fn_info.items():
             if not inf['has_body']:
                 body = job.get('specs', {}).get(cn, {}).get('stub_body')
                 if body is None:
                     out['note'] = 'no stub body for cut callee %s; cannot concretise' % cn
                     return out
-                stubs += lw.proto(inf['node']) + '\n{\n' + body + '\n}\n'
-                stub_fns.append(cn)
+                one = lw.proto(inf['node']) + '\n{\n' + body + '\n}\n'
+                if not inf['qualname'].startswith('QV::') and ast.fn_def.get(inf['mangled']) is not None and job.get('cut_qual'):
+                    # object code behind a contract: the stub is for the bounded search only; natively the real callee is linked
+                    stubs += '#ifndef QX_NATIVE\n' + one + '#endif\n'
+                    real_fns.append(cn)
+                else:
+                    stubs += one
+                    stub_fns.append(cn)
         gtext = 'typedef unsigned short qx_char16;\ntypedef unsigned int qx_char32;\ntypedef int qx_wchar;\n' + ''.join('%s %s;\n' % (t, g) for t, g in ghosts)
         jd = os.path.join(workdir, 'cex_' + R.safe_name(job['name']))
         os.makedirs(jd, exist_ok=True)
@@ -146,7 +153,7 @@ def concretise(job, unit, res, workdir, log):
         # several candidate inputs (smallest first): the first one that reproduces on the real code is reported
         first = None
         for hi, hit in enumerate(hits[:4]):
-            o_ = _replay_hit(job, unit, hit, dict(out), jd, lw, ast, fn, stub_fns, gtext, text, stubs)
+            o_ = _replay_hit(job, unit, hit, dict(out), jd, lw, ast, fn, stub_fns, gtext, text, stubs, real_fns)
             if first is None:
                 first = o_
             if o_.get('reproduced'):
@@ -160,7 +167,7 @@ def concretise(job, unit, res, workdir, log):
         return out
 
 
-def _replay_hit(job, unit, hit, out, jd, lw, ast, fn, stub_fns, gtext, text, stubs):
+def _replay_hit(job, unit, hit, out, jd, lw, ast, fn, stub_fns, gtext, text, stubs, real_fns=()):
     """native replay of one concretised input against the real headers"""
     try:
         prop, desc, vals, hg, htext = hit
@@ -174,7 +181,7 @@ def _replay_hit(job, unit, hit, out, jd, lw, ast, fn, stub_fns, gtext, text, stu
                 f.write('#define QX_VAL_%s 0x%xULL\n' % (n, vals.get(n, 0) & 0xFFFFFFFFFFFFFFFF))
         # native replay against the real headers
         wrap_fns = [cn for cn, inf in lw.fn_info.items() if cn == fn]
-        wcpp = RP.wrapper_cpp(lw, os.path.join(VERIF, 'inst', unit['driver'].replace('.cpp', '.hpp')), wrap_fns, stub_fns, ast=ast)
+        wcpp = RP.wrapper_cpp(lw, os.path.join(VERIF, 'inst', unit['driver'].replace('.cpp', '.hpp')), wrap_fns, stub_fns, ast=ast, real_fns=real_fns)
         wfile = os.path.join(jd, 'wrapper.cpp')
         with open(wfile, 'w') as f:
             f.write(wcpp)
@@ -351,6 +358,7 @@ def run_property(pid, tier, seed, workdir, t0, a):
         if j.get('mode', 'dfcc') == 'dfcc' and j.get('canary', True):
             c = dict(j)
             c['name'] = j['name'] + '#canary'
+            c.pop('scope_re', None)
             sp = {k: dict(v) for k, v in j['specs'].items()}
             sp[j['fn']]['ensures'] = list(sp[j['fn']].get('ensures', [])) + ['0 == 1']
             c['specs'] = sp
